@@ -60,6 +60,35 @@ CHECKS = {
             "Exploration: five formatters x boundary values x every flag subset x ~300 prefixes (every single byte, the formatter's own alphabet, seeded binary) x spare capacities 0..64; in-place edits, wrong results, writes past capacity and scratch-buffer aliasing are all observable.",
             "Trusted: Go runtime; format(nil, ...) as reference for format(prefix, ...), itself checked by C01/C02/C05/C13.",
             "DESIGN.md section 4 C16"),
+    "C04": ("runtime round-trip monitor under all 8 marshalling-switch combinations (barrier per combination): marshalled form read back through the real unmarshalers and through encoding/json containers, form kind checked with an independent JSON tree reader",
+            "Exploration: all sizes below 2^20 plus a stratified/seeded 64-bit set x 8 switch combinations x text, JSON, rendering and encoding/json document paths (struct field, pointer, slice, map value, nested pointer slice, map key); decoded value must equal the original and the form must be the one the switches select.",
+            "Trusted: Go runtime, encoding/json, math/big; harness/ref/jsontree.go and size.go.",
+            "DESIGN.md section 4 C04"),
+    "C08": ("runtime reference-model monitor: +-1000 neighbourhoods of every unit's overflow boundary, all numeric kinds and derived types at their edges, grammar-generated separator texts, Bytes[N] at representability boundaries, judged with math/big",
+            "Exploration: for each of 19 units every value within +-1000 of floor((2^64-1)/multiplier), all 2^k/10^k, wrap candidates, seeded values through New and the text parser; one value through 24 numeric types; hundreds of thousands of generated texts with every separator kind; Bytes over 18 types; constraint helpers against math constants.",
+            "Trusted: Go runtime, math/big, reflect; harness/ref/size.go (multipliers derived as 1000^k/1024^k).",
+            "DESIGN.md section 4 C08"),
+    "C12": ("runtime reference-model monitor: AST-generated JSON documents, all member permutations, every truncation point and trailing suffixes, across all 16 rule subsets x 5 MaxObjectKeys values, judged by an order-independent oracle built on encoding/json's tokenizer and json.Valid",
+            "Exploration: tens of millions of (document, rules, limit) events; acceptance, value, single-cause sentinel errors (errors.Is), typed zero-valued rejection, order independence over permutations and rejection of everything that is not exactly one JSON value are checked online.",
+            "Trusted: Go runtime, encoding/json tokenizer and json.Valid, math/big; harness/ref/jsontree.go, size.go.",
+            "DESIGN.md section 4 C12"),
+    "C17": ("runtime history monitor: per-type state machine stepped by recorded Unmarshal*/Scan calls on one receiver, inputs carved from guarded arrays (snapshot/compare/scribble), plus four-instantiation agreement of every generic parser",
+            "Exploration: 20,000 (quick) / 600,000 (thorough) seeded 40-step histories per type with failures forced right after successful non-zero decodes; receiver compared with a deep-copied model after every step and after the input buffer is overwritten; 14 generic entry points compared across string, []byte and named types.",
+            "Trusted: Go runtime; the receiver's value observed through exported accessors/fields.",
+            "DESIGN.md section 4 C17"),
+    "C18": ("runtime totality/limit monitor in a child process with a memory-mapped in-flight recorder: 117 entry points x hostile inputs x four MaxInputLength settings, panic capture, result-shape and limit-contract checks, allocation monitor via runtime/metrics",
+            "Exploration: millions of seeded hostile calls (invalid UTF-8, multi-byte runes at every offset, NUL, equal-byte-length/different-rune-count pairs, 10x-1000x over-long runs with the limit disabled, deep JSON nesting); a recovered panic, a fatal death of the child (attributed through the in-flight recorder), a wrong limit decision, an echoed input or a runaway allocation is a violation; a hang is inconclusive.",
+            "Trusted: Go runtime; wall clock used only by the inconclusive watchdog.",
+            "DESIGN.md section 4 C18"),
+    "C19": ("Go race detector (-race build, GORACE halt_on_error=0 log_path, reports counted and attributed by stack) over concurrent RandomID workloads in child processes, with a positive-control race, plus per-ID version/variant, per-bit frequency and exact duplicate monitors",
+            "Exploration: G in {1,2,8,64} goroutines x GOMAXPROCS in {1,2,4,16} x repetitions, 200,000 (quick) / 2,000,000 (thorough) draws per run with seeded yields between calls; observed hand-offs, run lengths and goroutine mix per 64-ticket window are recorded as evidence of the interleavings actually seen.",
+            "Trusted: the Go race detector (reports races on executed accesses only; schedules are sampled, not enumerated).",
+            "DESIGN.md section 4 C19"),
+    "C20": ("runtime reference-model monitor over generated programs: scripted marshaler/unmarshaler types x generated case lists through all six helpers with a recording TestingT inside a panic guard, judged per list and per case by an independent pass/fail oracle",
+            "Exploration: 60,000 (quick) / 3,000,000 (thorough) seeded case lists x 6 helpers x 3 scripted types, whole and case by case; failure reported <=> some applicable case unmet; no escaping panic. One known finding (ErrorMatch with a valid non-matching pattern) is listed in KNOWN_FINDINGS.txt by its monitor key.",
+            "Trusted: Go runtime; the oracle in harness/cmd/mon/c20.go; payloads never empty so testify's nil-vs-empty distinction is not exercised.",
+            "DESIGN.md section 4 C20"),
+
 }
 
 NOT_CLAIMED = {}
